@@ -70,6 +70,85 @@ def _eval_queries(m, assertions_ctx, queries):
     return {}
 
 
+def is_nonlinear(f):
+    """contains a product of two non-numeral terms, a division by a non-numeral, or a power"""
+    seen = set()
+    stack = [f]
+    while stack:
+        x = stack.pop()
+        i = x.get_id()
+        if i in seen:
+            continue
+        seen.add(i)
+        if z3.is_app(x):
+            k = x.decl().kind()
+            if k == z3.Z3_OP_MUL:
+                if sum(1 for c in x.children() if not (z3.is_int_value(c) or z3.is_rational_value(c))) >= 2:
+                    return True
+            elif k in (z3.Z3_OP_DIV, z3.Z3_OP_IDIV, z3.Z3_OP_MOD, z3.Z3_OP_REM):
+                d = x.arg(1)
+                if not (z3.is_int_value(d) or z3.is_rational_value(d)):
+                    return True
+            elif k == z3.Z3_OP_POWER:
+                return True
+        if z3.is_quantifier(x):
+            stack.append(x.body())
+        else:
+            stack.extend(x.children())
+    return False
+
+
+def symbols(f):
+    """names of the uninterpreted constants and functions occurring in f"""
+    out = set()
+    seen = set()
+    stack = [f]
+    while stack:
+        x = stack.pop()
+        i = x.get_id()
+        if i in seen:
+            continue
+        seen.add(i)
+        if z3.is_quantifier(x):
+            stack.append(x.body())
+            continue
+        if z3.is_app(x):
+            if x.decl().kind() == z3.Z3_OP_UNINTERPRETED:
+                out.add(x.decl().name())
+            stack.extend(x.children())
+    return out
+
+
+def fun_symbols(f):
+    """names of uninterpreted functions of arity > 0 applied in f"""
+    out = set()
+    seen = set()
+    stack = [f]
+    while stack:
+        x = stack.pop()
+        i = x.get_id()
+        if i in seen:
+            continue
+        seen.add(i)
+        if z3.is_quantifier(x):
+            stack.append(x.body())
+            continue
+        if z3.is_app(x):
+            if x.decl().kind() == z3.Z3_OP_UNINTERPRETED and x.num_args() > 0:
+                out.add(x.decl().name())
+            stack.extend(x.children())
+    return out
+
+
+def def_head(f):
+    """F for a hypothesis of the form F(args) == rhs with F uninterpreted of arity > 0, else None"""
+    if z3.is_eq(f):
+        a = f.arg(0)
+        if z3.is_app(a) and a.decl().kind() == z3.Z3_OP_UNINTERPRETED and a.num_args() > 0:
+            return a.decl().name()
+    return None
+
+
 _BV2INT_NAMES = ('bv2int', 'ubv_to_int', 'sbv_to_int', 'bv2nat')
 
 
@@ -99,72 +178,221 @@ def abstract_bv2int(fs):
     return [walk(f) for f in fs], len(cache)
 
 
+def abstract_int_atoms(fs):
+    """sound generalisation: every atom over integer terms (=, <=, <, ...) becomes a fresh Boolean (one per distinct atom);
+    what remains is Boolean structure + real arithmetic, which nlsat/the default solver decide quickly"""
+    cache = {}
+    memo = {}
+
+    def walk(t):
+        i = t.get_id()
+        if i in memo:
+            return memo[i]
+        r = t
+        if z3.is_app(t) and t.num_args() > 0:
+            if z3.is_bool(t) and t.decl().kind() in (z3.Z3_OP_EQ, z3.Z3_OP_LE, z3.Z3_OP_LT, z3.Z3_OP_GE, z3.Z3_OP_GT, z3.Z3_OP_DISTINCT) \
+                    and all(z3.is_int(c) for c in t.children()):
+                r = cache.setdefault(i, z3.Bool('iatom!%d' % len(cache)))
+            else:
+                ch = [walk(c) for c in t.children()]
+                if any(not a.eq(b) for a, b in zip(ch, t.children())):
+                    r = t.decl()(*ch)
+        memo[i] = r
+        return r
+    return [walk(f) for f in fs], len(cache)
+
+
+def abstract_uf_apps(fs):
+    """sound generalisation: every application of an uninterpreted function with an arithmetic result becomes a
+    fresh constant (one per distinct term): loses congruence only"""
+    cache = {}
+    memo = {}
+
+    def walk(t):
+        i = t.get_id()
+        if i in memo:
+            return memo[i]
+        r = t
+        if z3.is_app(t) and t.num_args() > 0:
+            if t.decl().kind() == z3.Z3_OP_UNINTERPRETED and (z3.is_real(t) or z3.is_int(t)):
+                r = cache.setdefault(i, z3.Const('uf!%d' % len(cache), t.sort()))
+            else:
+                ch = [walk(c) for c in t.children()]
+                if any(not a.eq(b) for a, b in zip(ch, t.children())):
+                    r = t.decl()(*ch)
+        memo[i] = r
+        return r
+    return [walk(f) for f in fs]
+
+
+import json  # noqa: E402
+import select  # noqa: E402
+import signal  # noqa: E402
+
+
+def timed_check(s, ms, want_model=False):
+    """z3's own timeout is not always honoured inside the non-linear engine, so every check runs in a forked
+    child with a hard deadline (the child inherits the parsed formulas; only the verdict/model comes back)"""
+    s.set('timeout', int(ms))
+    rd, wr = os.pipe()
+    pid = os.fork()
+    if pid == 0:
+        try:
+            os.close(rd)
+            r = s.check()
+            out = dict(r=str(r))
+            if r == z3.sat and want_model:
+                out['model'] = _model_dict(s.model())
+            if r == z3.unknown:
+                out['why'] = s.reason_unknown()
+            os.write(wr, json.dumps(out, default=str).encode())
+        except BaseException as ex:      # noqa
+            try:
+                os.write(wr, json.dumps(dict(r='unknown', why=repr(ex))).encode())
+            except Exception:
+                pass
+        finally:
+            os._exit(0)
+    os.close(wr)
+    deadline = time.time() + ms / 1000.0 + 2.0
+    buf = b''
+    try:
+        while True:
+            left = deadline - time.time()
+            if left <= 0:
+                break
+            ready, _, _ = select.select([rd], [], [], left)
+            if not ready:
+                break
+            chunk = os.read(rd, 1 << 20)
+            if not chunk:
+                break
+            buf += chunk
+    finally:
+        os.close(rd)
+        try:
+            os.kill(pid, signal.SIGKILL)
+        except ProcessLookupError:
+            pass
+        try:
+            os.waitpid(pid, 0)
+        except ChildProcessError:
+            pass
+    timed_check.last = {}
+    if not buf:
+        timed_check.last = dict(why='hard deadline')
+        return z3.unknown
+    try:
+        out = json.loads(buf.decode())
+    except Exception:
+        return z3.unknown
+    timed_check.last = out
+    return {'sat': z3.sat, 'unsat': z3.unsat}.get(out.get('r'), z3.unknown)
+
+
+timed_check.last = {}
+
+
 def solve_one(task):
-    """task = dict(name, smt2, timeout_ms, seed, queries) -> dict(status, backend, time, model)"""
+    """task = dict(name, smt2, timeout_ms, seed) -> dict(status, backend, time, model|candidate)
+
+    A sequence of attempts, each a *sound weakening* of the obligation (fewer hypotheses, or terms generalised to
+    fresh symbols), so `unsat` from any of them discharges the obligation; only the full query may answer `sat`."""
     t0 = time.time()
     name, smt2, timeout, seed = task['name'], task['smt2'], task['timeout_ms'], task.get('seed', 0)
     try:
-        fs = z3.parse_smt2_string(smt2)
+        fs = list(z3.parse_smt2_string(smt2))
     except Exception as ex:
         return dict(name=name, status='error', backend='z3', time=time.time() - t0, detail=repr(ex))
-    qf = [f for f in fs if not has_quant(f)]
-    cand = None
-    status = 'unknown'
-    # (i) quantifier-free slice
-    if len(qf) < len(fs):
+    hyps, goal = fs[:-1], fs[-1]          # goal is already negated
+    quant = [has_quant(f) for f in hyps]
+    nl = [(not q) and is_nonlinear(f) for f, q in zip(hyps, quant)]
+    qf = [f for f, q in zip(hyps, quant) if not q]
+    lin = [f for f, n in zip(hyps, nl) if not n]
+    linqf = [f for f, q, n in zip(hyps, quant, nl) if not q and not n]
+    gsyms, gfuns = symbols(goal), fun_symbols(goal)
+    relA = [f for f, n in zip(hyps, nl) if (not n) or (symbols(f) & gsyms)]
+    relB = [f for f, n in zip(hyps, nl) if (not n) or (def_head(f) in gfuns)]
+    F1 = set(gfuns)
+    for f in hyps:
+        if def_head(f) in gfuns:
+            F1 |= fun_symbols(f)
+    relF = [f for f, q, n in zip(hyps, quant, nl) if not q and (fun_symbols(f) & F1) and ((not n) or def_head(f) in gfuns)]
+    qf_ = lambda hs: [f for f in hs if not has_quant(f)]      # noqa: E731
+    cand = [None]
+    why = [None]
+
+    def plain(hs, ms, label, model=False, sd=seed):
         s = z3.Solver()
-        s.set('timeout', min(timeout, 3000))
-        s.set('random_seed', seed)
-        s.add(*qf)
-        r = s.check()
+        s.set('random_seed', sd)
+        s.add(*hs)
+        s.add(goal)
+        r = timed_check(s, ms, want_model=model)
+        why[0] = timed_check.last.get('why')
         if r == z3.unsat:
-            return dict(name=name, status='unsat', backend='z3-qfslice', time=time.time() - t0)
-        if r == z3.sat:
-            cand = _model_dict(s.model())
-    # (i') quantifier-free slice with bit-vector -> int conversions abstracted (pure real/int reasoning)
-    try:
-        afs, nabs = abstract_bv2int(qf)
-    except Exception:
-        afs, nabs = None, 0
-    if nabs:
+            return dict(name=name, status='unsat', backend=label, time=time.time() - t0)
+        if r == z3.sat and model:
+            if label == 'z3':
+                return dict(name=name, status='sat', backend='z3', time=time.time() - t0, model=timed_check.last.get('model'))
+            if cand[0] is None:
+                cand[0] = timed_check.last.get('model')
+        return None
+
+    def abstracted(hs, ms, label, bv=False, atoms=False):
+        try:
+            afs = hs + [goal]
+            n = 0
+            if bv:
+                afs, n = abstract_bv2int(afs)
+            if atoms:
+                afs, n2 = abstract_int_atoms(afs)
+                afs = abstract_uf_apps(afs)
+                n += n2
+        except Exception:
+            return None
+        if not n:
+            return None
         s = z3.Solver()
-        s.set('timeout', min(timeout, 5000))
         s.add(*afs)
-        if s.check() == z3.unsat:
-            return dict(name=name, status='unsat', backend='z3-qfslice-abs', time=time.time() - t0)
-    # (ii) full query
-    for tactic_seed in (seed, seed + 17):
-        s = z3.Solver()
-        s.set('timeout', timeout)
-        s.set('random_seed', tactic_seed)
-        s.add(*fs)
-        r = s.check()
-        if r == z3.unsat:
-            return dict(name=name, status='unsat', backend='z3', time=time.time() - t0)
-        if r == z3.sat:
-            m = s.model()
-            model = _model_dict(m)
-            return dict(name=name, status='sat', backend='z3', time=time.time() - t0, model=model)
-        if time.time() - t0 > timeout / 1000.0:
-            break
-    # (ii') a longer try on the quantifier-free slice
-    if len(qf) < len(fs) and cand is None:
-        s2 = z3.Solver()
-        s2.set('timeout', timeout)
-        s2.set('random_seed', seed + 5)
-        s2.add(*qf)
-        r = s2.check()
-        if r == z3.unsat:
-            return dict(name=name, status='unsat', backend='z3-qfslice', time=time.time() - t0)
-        if r == z3.sat:
-            cand = _model_dict(s2.model())
-    # (iii) cvc5
+        if timed_check(s, ms) == z3.unsat:
+            return dict(name=name, status='unsat', backend=label, time=time.time() - t0)
+        return None
+
+    stages = []
+    has_q = len(qf) < len(hyps)
+    has_nl = len(lin) < len(hyps)
+    goal_nl = is_nonlinear(goal)
+    if has_q:
+        stages.append(lambda: plain(qf, min(timeout, 3000), 'z3-qfslice', model=True))
+    if 'bv_to_int' in smt2 or 'bv2int' in smt2 or 'bv2nat' in smt2:
+        stages.append(lambda: abstracted(qf, min(timeout, 5000), 'z3-qfslice-abs', bv=True))
+    if goal_nl and F1 and len(relF) < len(hyps):
+        stages.append(lambda: plain(relF, 4000, 'z3-funslice'))
+        stages.append(lambda: abstracted(relF, 12000, 'z3-funslice-boolabs', atoms=True))
+    if has_nl:
+        stages.append(lambda: plain(linqf, 2000, 'z3-linslice'))
+    stages.append(lambda: plain(hyps, min(timeout, 6000), 'z3', model=True))
+    if has_nl:
+        if has_q:
+            stages.append(lambda: plain(lin, min(timeout, 8000), 'z3-linslice'))
+        if len(relB) < len(hyps):
+            stages.append(lambda: plain(qf_(relB), min(timeout, 8000), 'z3-defslice'))
+            stages.append(lambda: abstracted(qf_(relB), 10000, 'z3-defslice-boolabs', atoms=True))
+        if len(relA) < len(hyps):
+            stages.append(lambda: plain(qf_(relA), min(timeout, 10000), 'z3-relslice'))
+            stages.append(lambda: plain(relA, min(timeout, 10000), 'z3-relslice'))
+    stages.append(lambda: abstracted(qf, min(timeout, 5000), 'z3-qfslice-abs', bv=True))
+    stages.append(lambda: plain(hyps, timeout, 'z3', model=True, sd=seed + 17))
+    if has_q:
+        stages.append(lambda: plain(qf, timeout, 'z3-qfslice', model=True, sd=seed + 5))
+    for st in stages:
+        r = st()
+        if r is not None:
+            return r
     if task.get('use_cvc5', True):
-        r = run_cvc5(smt2, timeout)
-        if r == 'unsat':
+        if run_cvc5(smt2, timeout) == 'unsat':
             return dict(name=name, status='unsat', backend='cvc5', time=time.time() - t0)
-    return dict(name=name, status='unknown', backend='z3+cvc5', time=time.time() - t0, candidate=cand,
-                detail=s.reason_unknown())
+    return dict(name=name, status='unknown', backend='z3+cvc5', time=time.time() - t0, candidate=cand[0], detail=why[0])
 
 
 def run_cvc5(smt2, timeout_ms):
